@@ -21,7 +21,9 @@ func main() {
 	case "lemma":
 		cmdLemma(os.Args[2:])
 	case "check":
-		os.Exit(cmdCheck(os.Args[2:]))
+		rc := cmdCheck(os.Args[2:])
+		cleanupWorkDir()
+		os.Exit(rc)
 	default:
 		fmt.Fprintln(os.Stderr, "unknown command")
 		os.Exit(2)
